@@ -15,6 +15,10 @@ import (
 //
 //	C09  sent-before-stored            QoS>=1 PUBLISH handed to the connection before SavePacket succeeded
 //	     kept-until-acked              a stored PUBLISH is gone although no PUBACK/PUBCOMP arrived
+//	     id-reused-while-unacked       a request was stored / sent under the packet id of a publish of this client that is
+//	                                   still unacknowledged (MQTT 3.1.1 §2.3.1); the id-wrap case (script_test.go) has its
+//	                                   own copy of this check, plus future-cancelled-while-connected and resend-missing for
+//	                                   the publish whose id was taken
 //	     pubrec-replaces               after PUBREC the stored packet is not the PUBREL
 //	     resend-wrong / resend-missing retransmission after CONNACK differs from the store (order, dup flag, completeness)
 //	     future-completed-without-ack  a future completed although no acknowledgement for its id was delivered
@@ -31,11 +35,15 @@ import (
 //	     qos01-order / qos01-not-delivered
 //	     puback-missing / ack-before-callback
 //	     ack-after-callback-error / conn-open-after-callback-error
+//	     callback-message-mutated      a *packet.Message handed to the callback reads differently later (at the next
+//	                                   callback / at the end of the case) than the deep snapshot taken when it was handed
+//	                                   over (world_test.go: keptMsg) — each message is passed on exactly once, intact
 type oracle struct {
 	i int // next history entry to look at
 
 	// C09
 	wantOut    map[packet.ID]string // what the session must hold for an id: publish | pubrel
+	ownPub     map[packet.ID]bool   // wantOut[id] goes back to a QoS>=1 publish of the client itself (not to a spurious PUBREC)
 	recFor     packet.ID            // PUBREC being processed
 	ackFor     packet.ID            // PUBACK/PUBCOMP/SUBACK/UNSUBACK being processed
 	allAt      int                  // index of the last `all ok` event, -1
@@ -60,7 +68,7 @@ type oracle struct {
 }
 
 func newOracle() *oracle {
-	return &oracle{wantOut: map[packet.ID]string{}, allAt: -1, ended: map[int]string{}, cleanupBy: map[int]bool{},
+	return &oracle{wantOut: map[packet.ID]string{}, ownPub: map[packet.ID]bool{}, allAt: -1, ended: map[int]string{}, cleanupBy: map[int]bool{},
 		raced: map[*call]bool{}, banned: map[packet.ID]bool{}, zombieSeen: map[int]bool{}}
 }
 
@@ -128,11 +136,15 @@ func (w *World) advance() {
 		case "reset":
 			if e.ok {
 				o.wantOut = map[packet.ID]string{}
+				o.ownPub = map[packet.ID]bool{}
 			}
 		case "save":
 			if e.dir == "out" {
 				if _, isPub := e.pkt.(*packet.Publish); isPub && e.th == "a" && e.ok {
-					o.wantOut[e.id] = "publish"
+					if o.ownPub[e.id] && o.wantOut[e.id] != "" {
+						w.hit("id-reused-while-unacked", fmt.Sprintf("a new PUBLISH was stored under packet id %d while the %s of an earlier publish is still recorded under it (unacknowledged)", e.id, o.wantOut[e.id]))
+					}
+					o.wantOut[e.id], o.ownPub[e.id] = "publish", true
 				}
 				if _, isRel := e.pkt.(*packet.Pubrel); isRel && e.id == o.recFor {
 					if e.ok {
@@ -147,6 +159,7 @@ func (w *World) advance() {
 			if e.dir == "out" && e.id == o.ackFor {
 				if e.ok {
 					delete(o.wantOut, e.id)
+					delete(o.ownPub, e.id)
 				}
 				o.ackFor = 0
 			}
@@ -218,6 +231,12 @@ func (w *World) advance() {
 			}
 			w.peer.callbackSeen(w, e.msg, e.ok, o.early)
 		case "send":
+			if id, hasID := packet.GetID(e.pkt); hasID && e.th == "a" && o.ownPub[id] && o.wantOut[id] != "" {
+				switch e.pkt.(type) {
+				case *packet.Subscribe, *packet.Unsubscribe:
+					w.hit("id-reused-while-unacked", fmt.Sprintf("%s was sent under packet id %d while the %s of an earlier publish is still recorded under it (unacknowledged)", wire.ShowPacket(e.pkt), id, o.wantOut[id]))
+				}
+			}
 			switch p := e.pkt.(type) {
 			case *packet.Publish:
 				if e.th == "a" && p.Message.QOS > 0 && !p.Dup && (e.call == nil || !savedBefore(h[:o.i], e.call, p.ID)) {
